@@ -45,6 +45,13 @@ FunctionalAgrees == EncModelP(inp, MaxRun, MinRun) = Flushed
 \* the run form of the decoder agrees with the plain form
 RunFormAgrees == SpecDecodeRuns(Flushed, FALSE) = Norm([k \in 1..Len(inp) |-> <<inp[k], 1>>])
 
+StreamAgrees == /\ StreamDecode(Flushed) = inp /\ StreamWellFormed(Flushed)
+                /\ StreamWellFormedV1(Flushed \o Marker)
+MatchFormAgrees == /\ MatchRuns(Flushed, Norm(RunsOf(inp))) = -1
+                   /\ MatchRunsV1(Flushed \o Marker, Norm(RunsOf(inp))) = -1
+                   /\ (inp # <<>> => MatchRuns(Flushed, Norm(RunsOf(Tail(inp)))) # -1)
+                   /\ MatchRuns(Flushed, Norm(RunsOf(Append(inp, 0)))) # -1
+
 \* a literal ED is never directly followed by a run token (the byte after a single ED is literal)
 RECURSIVE LoneEdOkFrom(_, _)
 LoneEdOkFrom(blk, i) ==
